@@ -311,6 +311,138 @@ def corridorModels (lineS fitS closeS : String) (skips : Bool) : List String :=
   let close (o : Ext) : Bool := (closeTbl.lookup o.id) == some "1"
   (dedup fits).map fun (hv : Int × Int) => commaJoin (sortStrs ((corridorE line hv.1 hv.2 close skips).map Ext.id))
 
+/-! ### vector / line / matrix / quaternion helpers (C20): binary64 instance of `Model/Vec.lean`, and numeric identity checks
+on the implementation's own answers -/
+section vec
+open SpatialId.Vec SpatialId.Vec.Dy
+
+def parseV3 (s : String) : Option (V3 F64.Dy) :=
+  match s.splitOn ":" with
+  | [a, b, c] => (fb a).bind fun x => (fb b).bind fun y => (fb c).map fun z => ⟨x, y, z⟩
+  | _ => none
+def showV3 (v : V3 F64.Dy) : String := showF v.x ++ ":" ++ showF v.y ++ ":" ++ showF v.z
+def parseM3 (s : String) : Option (M3 F64.Dy) :=
+  match (s.splitOn ":").mapM fb with
+  | some [a, b, c, d, e, f, g, h, i] => some ⟨a, b, c, d, e, f, g, h, i⟩
+  | _ => none
+def showM3 (m : M3 F64.Dy) : String :=
+  ":".intercalate ([m.m00, m.m01, m.m02, m.m10, m.m11, m.m12, m.m20, m.m21, m.m22].map showF)
+
+def vecModel (op : String) (a : List String) : Option String :=
+  match op, a with
+  | "vadd", [x, y] => some (match parseV3 x, parseV3 y with | some u, some v => showV3 (u.add v) | _, _ => "BADARG")
+  | "vsub", [x, y] => some (match parseV3 x, parseV3 y with | some u, some v => showV3 (u.sub v) | _, _ => "BADARG")
+  | "vfrom", [x, y] => some (match parseV3 x, parseV3 y with | some u, some v => showV3 (vecFromPoints u v) | _, _ => "BADARG")
+  | "vtrans", [x, y] => some (match parseV3 x, parseV3 y with | some u, some v => showV3 (translate u v) | _, _ => "BADARG")
+  | "vcross", [x, y] => some (match parseV3 x, parseV3 y with | some u, some v => showV3 (u.cross v) | _, _ => "BADARG")
+  | "vdot", [x, y] => some (match parseV3 x, parseV3 y with | some u, some v => showF (u.dot v) | _, _ => "BADARG")
+  | "vscale", [x, f] => some (match parseV3 x, fb f with | some u, some k => showV3 (u.scale k) | _, _ => "BADARG")
+  | "vl1", [x] => some (match parseV3 x with | some u => showF (l1NormDy u) | _ => "BADARG")
+  | "vline", [x, y, t] =>
+    some (match parseV3 x, parseV3 y, fb t with
+      | some u, some v, some k => showV3 ((lineFromPoints u v).toPoint k)
+      | _, _, _ => "BADARG")
+  | "vlineid", [x, y] =>
+    some (match parseV3 x, parseV3 y with
+      | some u, some v =>
+        let l := lineFromPoints u v
+        "|".intercalate [showV3 (l.toPoint ⟨0, 0⟩), showV3 (l.toPoint ⟨1, 0⟩), showV3 l.end_, showV3 l.start]
+      | _, _ => "BADARG")
+  | "vmmul", [x, y] => some (match parseM3 x, parseM3 y with | some u, some v => showM3 (u.mul v) | _, _ => "BADARG")
+  | "vmulvec", [x, y] => some (match parseM3 x, parseV3 y with | some u, some v => showV3 (u.mulVec v) | _, _ => "BADARG")
+  | "vmat", [x, y, z, w] =>
+    some (match parseM3 x, parseM3 y, parseM3 z, parseV3 w with
+      | some a, some b, some c, some v =>
+        "|".intercalate [showM3 ((a.mul b).mul c), showM3 (a.mul (b.mul c)), showV3 ((a.mul b).mulVec v),
+          showV3 (a.mulVec (b.mulVec v)), showM3 (M3.mul ⟨⟨1, 0⟩, ⟨0, 0⟩, ⟨0, 0⟩, ⟨0, 0⟩, ⟨1, 0⟩, ⟨0, 0⟩, ⟨0, 0⟩, ⟨0, 0⟩, ⟨1, 0⟩⟩ a)]
+      | _, _, _, _ => "BADARG")
+  | _, _ => none
+
+def fabs (x : Float) : Float := if x < 0.0 then 0.0 - x else x
+def v3f (v : V3 F64.Dy) : V3 Float := ⟨dyToFloat v.x, dyToFloat v.y, dyToFloat v.z⟩
+def m3f (m : M3 F64.Dy) : List Float := [m.m00, m.m01, m.m02, m.m10, m.m11, m.m12, m.m20, m.m21, m.m22].map dyToFloat
+def v3list (v : V3 Float) : List Float := [v.x, v.y, v.z]
+def closeL (a b : List Float) (tol : Float) : Bool :=
+  a.length == b.length && (a.zip b).all fun (x, y) => fabs (x - y) <= tol
+def sumAbs (l : List Float) : Float := l.foldl (fun s x => s + fabs x) 0.0
+
+/-- numeric identity checks on the implementation's answer `impl` (which already equals the bit-exact model for `vlineid`,
+`vmat`); `vquat` and `vnum` have no bit-exact model (sqrt / hypot are libm) and are judged here only -/
+def vecCheck (op : String) (a : List String) (impl : String) : Option (Bool × String) :=
+  match op, a with
+  | "vlineid", [x, y] =>
+    (match parseV3 x, parseV3 y, (impl.splitOn "|").mapM parseV3 with
+     | some s, some e, some [p0, p1, en, st] =>
+       let sf := v3list (v3f s); let ef := v3list (v3f e)
+       -- s + 1·(e − s): two roundings, each at most half an ulp of a quantity bounded by |s| + |e|
+       let tol := 4.0 * 1.1102230246251565e-16 * (sumAbs sf + sumAbs ef)
+       if !(closeL (v3list (v3f p0)) sf 0.0) then some (false, "VECID ToPoint(0) is not the start point")
+       else if !(closeL (v3list (v3f st)) sf 0.0) then some (false, "VECID Start() is not the start point")
+       else if !(closeL (v3list (v3f p1)) ef tol) then some (false, "VECID ToPoint(1) is not the end point (beyond rounding)")
+       else if !(closeL (v3list (v3f en)) ef tol) then some (false, "VECID End() is not the end point (beyond rounding)")
+       else none
+     | _, _, _ => none)
+  | "vmat", [x, y, z, w] =>
+    (match parseM3 x, parseM3 y, parseM3 z, parseV3 w, impl.splitOn "|" with
+     | some a, some b, some c, some v, [l, r, lv, rv, ia] =>
+       (match parseM3 l, parseM3 r, parseV3 lv, parseV3 rv, parseM3 ia with
+        | some l, some r, some lv, some rv, some ia =>
+          let na := sumAbs (m3f a); let nb := sumAbs (m3f b); let nc := sumAbs (m3f c)
+          let nv := sumAbs (v3list (v3f v))
+          if !(closeL (m3f l) (m3f r) (1e-14 * na * nb * nc)) then some (false, "VECID (A·B)·C differs from A·(B·C) beyond rounding")
+          else if !(closeL (v3list (v3f lv)) (v3list (v3f rv)) (1e-14 * na * nb * nv)) then
+            some (false, "VECID (A·B)v differs from A(Bv) beyond rounding")
+          else if !(closeL (m3f ia) (m3f a) 0.0) then some (false, "VECID unit matrix times A is not A")
+          else none
+        | _, _, _, _, _ => some (false, "VECID unparsable result"))
+     | _, _, _, _, _ => none)
+  | "vquat", [x, y] =>
+    (match parseV3 x, parseV3 y, (impl.splitOn ":").mapM fb with
+     | some s, some e, some [qw, qx, qy, qz] =>
+       let s := v3f s; let e := v3f e
+       let ns := Float.sqrt (s.x * s.x + s.y * s.y + s.z * s.z)
+       let ne := Float.sqrt (e.x * e.x + e.y * e.y + e.z * e.z)
+       if ns == 0.0 || ne == 0.0 then none else
+       let su : V3 Float := ⟨s.x / ns, s.y / ns, s.z / ns⟩
+       let eu : V3 Float := ⟨e.x / ne, e.y / ne, e.z / ne⟩
+       let c := su.x * eu.x + su.y * eu.y + su.z * eu.z
+       let q : Quat Float := ⟨dyToFloat qw, dyToFloat qx, dyToFloat qy, dyToFloat qz⟩
+       let n2 := q.w * q.w + q.x * q.x + q.y * q.y + q.z * q.z
+       let r := q.rotate 0.0 su
+       -- main branch: divides by √(2(1+cos)); the error of cos (a few ulps) is amplified like 1/(1+cos) near opposite vectors.
+       -- opposite branch (cos + 1 < consts.Minima = 1e-10): the half-turn carries s onto −s, which differs from e by
+       -- |s + e| = √(2(1+cos)) < 1.5e-5 — the library's own tolerance; such cases are reported as in-band (`B`), not as agreement
+       let opp := 1.0 + c < 1e-10
+       let tol := if opp then 1e-9 else 1e-12 + 4e-15 / (1.0 + c)
+       let gap := if opp then Float.sqrt (2.0 * fabs (1.0 + c)) + 1e-9 else tol
+       if fabs (n2 - 1.0) > tol then some (false, s!"VECID quaternion is not a unit quaternion: |q|^2 - 1 = {n2 - 1.0}")
+       else if !(closeL (v3list r) (v3list eu) gap) then
+         some (false, s!"VECID quaternion does not carry the first direction onto the second (residual {fabs (r.x - eu.x) + fabs (r.y - eu.y) + fabs (r.z - eu.z)})")
+       else if opp && !(closeL (v3list r) (v3list eu) 1e-9) then
+         some (true, "nearly opposite vectors are treated as opposite (cos + 1 < 1e-10)")
+       else none
+     | _, _, _ => some (false, "VECID unparsable result"))
+  | "vnum", [x, y] =>
+    (match parseV3 x, parseV3 y, impl.splitOn "|" with
+     | some a, some b, [n, u, c, d] =>
+       (match fb n, parseV3 u, fb c, fb d with
+        | some n, some u, some c, some d =>
+          let a := v3f a; let b := v3f b
+          let na := Float.sqrt (a.x * a.x + a.y * a.y + a.z * a.z)
+          let nb := Float.sqrt (b.x * b.x + b.y * b.y + b.z * b.z)
+          let dd := Float.sqrt ((a.x - b.x) * (a.x - b.x) + (a.y - b.y) * (a.y - b.y) + (a.z - b.z) * (a.z - b.z))
+          if fabs (dyToFloat n - na) > 1e-14 * na then some (false, "VECID Norm differs from sqrt(x²+y²+z²)")
+          else if na != 0.0 && !(closeL (v3list (v3f u)) [a.x / na, a.y / na, a.z / na] 1e-14) then
+            some (false, "VECID Unit is not the vector divided by its norm")
+          else if na != 0.0 && nb != 0.0 && fabs (dyToFloat c - (a.x * b.x + a.y * b.y + a.z * b.z) / (na * nb)) > 1e-13 then
+            some (false, "VECID Cos differs from dot/(norm·norm)")
+          else if fabs (dyToFloat d - dd) > 1e-14 * (na + nb) then some (false, "VECID DistancePoint differs from the norm of the difference")
+          else none
+        | _, _, _, _ => some (false, "VECID unparsable result"))
+     | _, _, _ => none)
+  | _, _ => none
+end vec
+
 def dispatch (op : String) (a : List String) : Option String :=
   match op, a with
   | "shift", [id, dx, dy, dv] => some (shift id (int! dx) (int! dy) (int! dv))
@@ -451,7 +583,8 @@ def dispatch (op : String) (a : List String) : Option String :=
       | some e => commaJoin ((expandExt e).map Ext.spId)
       | none => "BADARG")
   | "voxid", [id] => some (showOut ((voxelId id).map showInts))
-  | _, _ => none
+  | "vquat", [_, _] | "vnum", [_, _] => some "CHECKED"
+  | op, a => vecModel op a
 
 /-- exact (rational) indices of C01 for a stored point: x = ⌊2^h (lon+180)/360⌋ with 180 read as -180, f = ⌊alt·2^v/2^25⌋ -/
 def exactX (lon : F64.Dy) (h : Int) : Int :=
@@ -589,8 +722,9 @@ partial def loop (h : IO.FS.Stream) (out : IO.FS.Stream) : IO Unit := do
              else if (corridorModels lineS fitS closeS (skips == "1")).contains impl then impl else m
            | _ => m)
         else m
+      let m := if m == "CHECKED" then impl else m    -- ops judged by a checker only
       if m == impl then
-        match (propCheck op args).orElse (fun _ => rejectCheck op args impl) with
+        match ((propCheck op args).orElse (fun _ => rejectCheck op args impl)).orElse (fun _ => vecCheck op args impl) with
         | none => out.putStrLn "A"
         | some (true, _) => out.putStrLn "B"
         | some (false, r) => out.putStrLn ("P\t" ++ r)
